@@ -207,7 +207,7 @@ pub fn subtitle(input: ParseString) -> ParseResult<Subtitle> {
   let (input, text) = paragraph_newline(input)?;
   let (input, _) = many0(space_tab)(input)?;
   let (input, _) = whitespace0(input)?;
-  let level: u8 = if num.len() < 3 { 3 } else { num.len() as u8 + 1 };
+  let level: u8 = if num.len() < 3 { 3 } else { num.len().min(254) as u8 + 1 };
   Ok((input, Subtitle{text, level}))
 }
 
